@@ -36,6 +36,8 @@ Apply(e) ==
       [] e.ev = "quiet"   -> PQuiet(SeqToSet(e.ready))
       [] e.ev = "final"   -> PFinal
       [] e.ev \in {"cancel", "fire", "leak", "note", "end", "spin"} -> UNCHANGED pvars
+      \* controller-level events of traces recorded with -logsteps (judged by ConcQueueXTrace.tla only)
+      [] e.ev \in {"step", "scen", "teardown"} -> UNCHANGED pvars
       [] OTHER            -> /\ bad' = bad \cup {"Unexplained"}
                              /\ UNCHANGED <<limit, enqd, pend, pre, runc, active, fin, wi, wiSnap>>
 
